@@ -14,3 +14,21 @@ def averagePwl (fs : List Pwl) : Option Pwl :=
   | _ => none
 
 end PySpike
+
+namespace PySpike
+
+/-- `PieceWiseConstFunc.integral((a, b))` exactly as the code behaves: for the degenerate interval
+    `a = b = x[-1]` it indexes `x[len(x)]` (IndexError); everywhere else it is `Pwc.integral`.
+    Found by the refinement proof of the generated model (Gen/Classes.lean); no property quantifies
+    over `a = b`. -/
+def Pwc.integralCode (f : Pwc) (a b : Q) : Option Q :=
+  if a = lastD f.x 0 ∧ b = lastD f.x 0 then none else f.integral a b
+
+/-- `PieceWiseLinFunc.integral((a, b))` exactly as the code behaves: besides the assertion `a ≥ x[0]`
+    it raises IndexError when `a ≥ x[-1]` or `b > x[-1]` (the hand-written `Pwl.integral` extrapolates the
+    last piece there). Found by the refinement proof of the generated model; intervals outside the support
+    are outside every property. -/
+def Pwl.integralCode (f : Pwl) (a b : Q) : Option Q :=
+  if f.x.headD 0 ≤ a ∧ a < lastD f.x 0 ∧ b ≤ lastD f.x 0 then f.integral a b else none
+
+end PySpike
